@@ -300,7 +300,7 @@ func run(c Case) kit.Result {
 
 var spec = kit.Spec[Case]{
 	Prop: "C07", Name: "main",
-	Rule: "layout balanced|trickle x width 2..1024 (weighted 2-8) x chunker (size-1..64 KiB weighted tiny, rabin-min-avg-max, rabin-N; buzhash/default/rabin in thorough) x raw|dag-pb leaves x CID builder (none, v0, v1 with sha2-256/sha2-512/blake2b-256/sha3-256, explicit or default digest length) x optional mode 1..07777 x optional mtime x input (const/periodic/random; chunk count weighted to width powers and full trickle layers; <= 256 KiB quick, <= 4 MiB thorough); non-trivial = at least two levels of internal nodes, or metadata requested",
+	Rule:  "layout balanced|trickle x width 2..1024 (weighted 2-8) x chunker (size-1..64 KiB weighted tiny, rabin-min-avg-max, rabin-N; buzhash/default/rabin in thorough) x raw|dag-pb leaves x CID builder (none, v0, v1 with sha2-256/sha2-512/blake2b-256/sha3-256, explicit or default digest length) x optional mode 1..07777 x optional mtime x input (const/periodic/random; chunk count weighted to width powers and full trickle layers; <= 256 KiB quick, <= 4 MiB thorough); non-trivial = at least two levels of internal nodes, or metadata requested",
 	Quick: 700, Thorough: 1800,
 	Gen: gen, Run: run,
 }
